@@ -45,6 +45,7 @@ func main() {
 	runFlipped()
 	runSymbols()
 	runGrayRows()
+	runValleyTies()
 	runBinHistories()
 	runBitmapViews()
 	chk.Finish()
